@@ -110,6 +110,16 @@ func (r *Rec) Flush(t *testing.T) {
 	if r.violations == nil {
 		rep["violations"] = []Violation{}
 	}
+	if r.samples == nil {
+		n := len(r.ops)
+		if n > 6 {
+			n = 6
+		}
+		for i := 0; i < n; i++ {
+			r.Sample(r.ops[i] + " => " + r.outs[i])
+		}
+		rep["samples"] = r.samples
+	}
 	b, _ := json.MarshalIndent(rep, "", " ")
 	must(os.WriteFile(filepath.Join(out, "report.json"), b, 0o644))
 }
